@@ -50,6 +50,10 @@ func (ds *dataStore) getStoreKey(keyName string) (sk *storeKey, exists bool) {
 
 func (ds *dataStore) hasChangedUnlocked(keyName string, id uint64) bool {
 	sk, exists := ds.getStoreKey(keyName)
+	if exists && sk.isExpiredUnlocked() {
+		// an expired key counts as absent, exactly as when it was watched
+		exists = false
+	}
 	if !exists {
 		return id != 0
 	} else {
